@@ -131,7 +131,9 @@ def run_property(mod, tier, seed, replay=None):
             a, s = ver[c["id"]][0], ver[c["id"]][1]
             if a and s:
                 continue
-            k = known(part, c, obs[c["id"]])
+            # a known finding explains a failing case only if the (code-faithful) model agrees with the
+            # implementation on it: any further deviation on the same input is still reported
+            k = known(part, c, obs[c["id"]]) if a else None
             if k is not None:
                 known_hits.setdefault(k, []).append(c)
             elif not s:
@@ -150,7 +152,7 @@ def run_property(mod, tier, seed, replay=None):
                 except Exception:
                     break
                 extra += len(more)
-                bad = [c for c in more if not v2[c["id"]][1] and known(part, c, o2[c["id"]]) is None]
+                bad = [c for c in more if not v2[c["id"]][1] and not (v2[c["id"]][0] and known(part, c, o2[c["id"]]) is not None)]
                 if bad:
                     for c in bad:
                         c["_obs"] = o2[c["id"]]
